@@ -153,6 +153,240 @@ func c05OpSingle(tr *Trace, os []*c05Order, p sdkmath.LegacyDec) {
 	tr.Line("amm.op", "single", c05Raw(p), fma, outcome, qcd, c05Results(os))
 }
 
+// the keeper's first batch of a pair (no last price): FindMatchPrice on the book's view, then MatchAtSinglePrice at that price
+func c05OpFirst(tr *Trace, os []*c05Order, prec int) {
+	snap := c05Snapshot(os)
+	var fmp, outcome, qcd = "none", "", "-"
+	panicked, _ := try(func() {
+		ob := amm.NewOrderBook(c05Objs(os)...)
+		mp, found := amm.FindMatchPrice(ob.MakeView(), prec)
+		if !found {
+			outcome = "nomatch"
+			return
+		}
+		fmp = c05Raw(mp)
+		q, matched := ob.MatchAtSinglePrice(mp)
+		if matched {
+			outcome = "ok"
+			qcd = q.String()
+		} else {
+			outcome = "nomatch"
+		}
+	})
+	if panicked {
+		outcome = "panic"
+	}
+	if fmp == "none" {
+		tr.Count("first:price-none")
+	} else {
+		tr.Count("first:price-found:" + outcome)
+	}
+	c05Stats(tr, os, snap, true)
+	tr.Line("amm.op", "first", strconv.Itoa(prec), fmp, outcome, qcd, c05Results(os))
+}
+
+// read-only checks of the order-book view and of FindMatchPrice (kind amm.fmpx: a precision other than the one the order
+// prices are ticks of — compared, not monitored)
+func c05ViewLines(tr *Trace, g *c05Gen, os []*c05Order) {
+	r := g.rng
+	ob := amm.NewOrderBook(c05Objs(os)...)
+	v := ob.MakeView()
+	sh := func(d sdkmath.LegacyDec, f bool) string {
+		if !f {
+			return "none"
+		}
+		return c05Raw(d)
+	}
+	n := 1 + r.Intn(3)
+	for k := 0; k < n; k++ {
+		p := g.opPrice(os)
+		if r.Chance(20) {
+			p = p.Add(sdkmath.LegacyNewDecWithPrec(int64(r.Intn(3)-1), 18)) // one raw unit off a tick
+		}
+		hb, f1 := v.HighestBuyPrice()
+		ls, f2 := v.LowestSellPrice()
+		tr.Line("amm.view", c05Raw(p), sh(hb, f1), sh(ls, f2), v.BuyAmountOver(p, true).String(), v.SellAmountUnder(p, true).String())
+	}
+	mp, found := amm.FindMatchPrice(v, g.prec)
+	tr.Line("amm.fmp", strconv.Itoa(g.prec), sh(mp, found))
+	if found {
+		tr.Count("fmp:found")
+	} else {
+		tr.Count("fmp:none")
+	}
+	if r.Chance(30) {
+		prec := 1 + r.Intn(5)
+		if prec != g.prec {
+			var mp2 sdkmath.LegacyDec
+			found2 := false
+			panicked, _ := try(func() { mp2, found2 = amm.FindMatchPrice(v, prec) })
+			if !panicked {
+				tr.Line("amm.fmpx", strconv.Itoa(prec), sh(mp2, found2))
+				tr.Count("fmp:other-precision")
+			}
+		}
+	}
+}
+
+// tick.go primitives on boundary-directed and random arguments
+func c05TickLines(tr *Trace, r *Rng, n int) {
+	for k := 0; k < n; k++ {
+		prec := r.Intn(6)
+		if k%7 == 0 {
+			tr.Line("amm.tk", "hi", strconv.Itoa(prec), "0", c05Raw(amm.HighestTick(prec)))
+			tr.Line("amm.tk", "lo", strconv.Itoa(prec), "0", c05Raw(amm.LowestTick(prec)))
+		}
+		// a price: 10^e * m with m around interesting mantissas, then small raw perturbations
+		e := r.Intn(40)
+		var raw sdkmath.Int
+		switch r.Intn(5) {
+		case 0:
+			raw = c05Pow10(e)
+		case 1:
+			raw = c05Pow10(e).MulRaw(int64(1 + r.Intn(9)))
+		case 2:
+			raw = c05Pow10(e).MulRaw(int64(1 + r.Intn(999999)))
+		case 3:
+			raw = c05Pow10(e + 1).SubRaw(1)
+		default:
+			raw = sdkmath.NewIntFromUint64(r.U64() >> uint(r.Intn(60))).AddRaw(1)
+		}
+		raw = raw.AddRaw(int64(r.Intn(5) - 2))
+		if !raw.IsPositive() {
+			raw = sdkmath.OneInt()
+		}
+		price := sdkmath.LegacyNewDecFromIntWithPrec(raw, 18)
+		ps, rs := strconv.Itoa(prec), raw.String()
+		for _, fn := range []string{"down", "up", "ptup", "dn", "round", "toidx"} {
+			var out string
+			panicked, _ := try(func() {
+				switch fn {
+				case "down":
+					out = c05Raw(amm.PriceToDownTick(price, prec))
+				case "up":
+					out = c05Raw(amm.UpTick(price, prec))
+				case "ptup":
+					out = c05Raw(amm.PriceToUpTick(price, prec))
+				case "dn":
+					out = c05Raw(amm.DownTick(price, prec))
+				case "round":
+					out = c05Raw(amm.RoundPrice(price, prec))
+				case "toidx":
+					out = strconv.Itoa(amm.TickToIndex(amm.PriceToDownTick(price, prec), prec))
+					rs = c05Raw(amm.PriceToDownTick(price, prec))
+				}
+			})
+			if panicked {
+				tr.Count("tk:panic:" + fn)
+				continue
+			}
+			if fn == "round" && raw.LT(c05Pow10(prec)) {
+				continue // below the lowest tick RoundPrice indexes a negative tick (never reached: prices are >= the lowest tick)
+			}
+			tr.Line("amm.tk", fn, ps, rs, out)
+			rs = raw.String()
+		}
+		// indices: random, decade boundaries, and -1 (evaluated by the downward walk of FindMatchPrice at index 0)
+		hi := amm.TickToIndex(amm.HighestTick(prec), prec)
+		p10 := 1
+		for q := 0; q < prec; q++ {
+			p10 *= 10
+		}
+		var idx int
+		switch r.Intn(4) {
+		case 0:
+			idx = r.Intn(hi + 1)
+		case 1:
+			idx = 9*p10*r.Intn(40) + r.Intn(3) - 1
+		case 2:
+			idx = -1
+		default:
+			idx = hi - r.Intn(5)
+		}
+		tr.Line("amm.tk", "fromidx", ps, strconv.Itoa(idx), c05Raw(amm.TickFromIndex(idx, prec)))
+	}
+}
+
+// basic pools: the curve functions and the order generation of PoolBuyOrders / PoolSellOrders on real BasicPools
+func c05PoolLines(tr *Trace, r *Rng, n int) {
+	list := func(os []amm.Order) string {
+		ss := make([]string, len(os))
+		for i, o := range os {
+			ss[i] = c05Raw(o.GetPrice()) + ":" + o.GetAmount().String()
+		}
+		return strings.Join(ss, ",")
+	}
+	for k := 0; k < n; k++ {
+		prec := 2 + r.Intn(3)
+		lo := amm.TickToIndex(c05Dec("0.0000000001"), prec)
+		hi := amm.TickToIndex(c05Dec("10000000000"), prec)
+		lp := amm.TickFromIndex(lo+r.Intn(hi-lo+1), prec)
+		lowest, highest := liqtypes.PriceLimits(lp, sdkmath.LegacyNewDecWithPrec(1, 1), prec)
+		// pool price within a few percent of the last price; sometimes outside the limits (BuyAmountTo / SellAmountTo branch)
+		dev := int64(r.Intn(61) - 30)
+		switch r.Intn(6) {
+		case 0:
+			dev = int64(r.Intn(601) - 300)
+		case 1:
+			dev = 0
+		}
+		pp := lp.Mul(sdkmath.LegacyNewDec(1000 + dev)).QuoInt64(1000)
+		var ry sdkmath.Int
+		switch r.Intn(5) {
+		case 0:
+			ry = sdkmath.NewInt(int64(1 + r.Intn(3000))) // tiny reserves: orders below MinCoinAmount, early breaks
+		case 1:
+			ry = c05Pow10(20 + r.Intn(15)).MulRaw(int64(1 + r.Intn(9)))
+		default:
+			ry = c05Pow10(3 + r.Intn(12)).MulRaw(int64(1 + r.Intn(999))).AddRaw(int64(r.Intn(1000)))
+		}
+		rx := pp.MulInt(ry).TruncateInt().AddRaw(int64(r.Intn(3)))
+		if r.Chance(3) {
+			rx = sdkmath.ZeroInt()
+		}
+		if r.Chance(3) {
+			ry = sdkmath.ZeroInt()
+		}
+		pool := amm.NewBasicPool(rx, ry, sdkmath.OneInt())
+		// curve functions at prices around the pool price
+		for q := 0; q < 3; q++ {
+			price := amm.TickFromIndex(amm.TickToIndex(lp, prec)+r.Intn(81)-40, prec)
+			if r.Chance(10) {
+				price = price.Add(sdkmath.LegacyNewDecWithPrec(int64(r.Intn(3)-1), 18))
+			}
+			for _, fn := range []string{"price", "bo", "su", "bt", "st"} {
+				out := "panic"
+				try(func() {
+					switch fn {
+					case "price":
+						out = c05Raw(pool.Price())
+					case "bo":
+						out = pool.BuyAmountOver(price, true).String()
+					case "su":
+						out = pool.SellAmountUnder(price, true).String()
+					case "bt":
+						out = pool.BuyAmountTo(price).String()
+					case "st":
+						out = pool.SellAmountTo(price).String()
+					}
+				})
+				tr.Line("amm.bp", fn, rx.String(), ry.String(), c05Raw(price), out)
+			}
+		}
+		buys := amm.PoolBuyOrders(pool, amm.DefaultOrderer, lowest, highest, prec)
+		sells := amm.PoolSellOrders(pool, amm.DefaultOrderer, lowest, highest, prec)
+		switch {
+		case len(buys) == 0 && len(sells) == 0:
+			tr.Count("pool-orders:none")
+		case len(buys)+len(sells) < 20:
+			tr.Count("pool-orders:1-19")
+		default:
+			tr.Count("pool-orders:20+")
+		}
+		tr.Line("amm.pool", rx.String(), ry.String(), c05Raw(lowest), c05Raw(highest), strconv.Itoa(prec), list(buys), list(sells))
+	}
+}
+
 func c05OpMatch(tr *Trace, os []*c05Order, lp sdkmath.LegacyDec) {
 	snap := c05Snapshot(os)
 	var dir, outcome, mp, qcd = "0", "", "-", "-"
@@ -416,20 +650,11 @@ func (g *c05Gen) op(tr *Trace, os []*c05Order) {
 	case c < 45:
 		c05OpMatch(tr, os, g.opPrice(os))
 	case c < 80:
-		p := g.opPrice(os)
 		if r.Chance(40) {
-			// the keeper's first batch of a pair: the price comes from the REAL FindMatchPrice (an external input of the model)
-			var mp sdkmath.LegacyDec
-			found := false
-			try(func() { mp, found = amm.FindMatchPrice(amm.NewOrderBook(c05Objs(os)...).MakeView(), g.prec) })
-			if found && mp.IsPositive() {
-				p = mp
-				tr.Count("single:price-from-FindMatchPrice")
-			} else {
-				tr.Count("single:FindMatchPrice-none")
-			}
+			c05OpFirst(tr, os, g.prec)
+		} else {
+			c05OpSingle(tr, os, g.opPrice(os))
 		}
-		c05OpSingle(tr, os, p)
 	case c < 92:
 		// DistributeOrderAmountToOrders directly on the orders of one side, at a common price
 		p := g.opPrice(os)
@@ -634,6 +859,9 @@ func TestC05(t *testing.T) {
 		c05OpMatch(tr, os, one)
 	}
 
+	c05TickLines(tr, rng, scale(3000, 60000))
+	c05PoolLines(tr, rng, scale(1500, 30000))
+
 	g := &c05Gen{rng: rng}
 	books := scale(40000, 600000)
 	for b := 0; b < books; b++ {
@@ -654,6 +882,9 @@ func TestC05(t *testing.T) {
 			tr.Count("case:book")
 		}
 		c05Begin(tr, os)
+		if rng.Chance(35) {
+			c05ViewLines(tr, g, os)
+		}
 		g.op(tr, os)
 		for rng.Chance(25) { // further calls on the mutated orders (states with paid > 0, open < amount)
 			tr.Count("op:follow-up")
